@@ -24,7 +24,7 @@ META = {
                    "linear-interpolation quantile of the per-resample oracle values; entries are non-decreasing in q; count is n at every quantile; a constant "
                    "metric has all quantiles equal to the point estimate; shapes / columns / index match the point estimate for groups present in a resample.",
     "tier_bounds": {"quick": "n=2: all 4 index vectors, n_boot 1,2 all tuples, n_boot 3 seeded 12; n=3: seeded 4 vectors (n_boot=1), 3 pairs (n_boot=2) per group layout; "
-                             "a control-feature layout with 3 seeded draws; quantile lists [0.25,0.75], [0.75,0.25], [0.5,0.9,0.1] (requested order not always ascending); real RNG: seeds 0, 1, 2^31 + 3 random",
+                             "a control-feature layout with 3 seeded draws; 3 layouts with a MISSING numeric feature value (that row is in no group, still in overall); quantile lists [0.25,0.75], [0.75,0.25], [0.5,0.9,0.1] (requested order not always ascending); real RNG: seeds 0, 1, 2^31 + 3 random",
                     "thorough": "n=3 n_boot=2 all 729 pairs, n=4 seeded; 30 seeds"},
     "trusted_base": ["z3", "symx", "numpy quantile on object arrays as executed", "DataFrame.sample contract stub"],
     "stubs": ["pandas.DataFrame.sample -> rows at a harness-chosen index vector (mode ii only)", "nanops._ensure_numeric"],
